@@ -27,7 +27,7 @@ pub const SIM_ASSUMPTIONS: &[&str] = &[
 pub fn info(prop: &str) -> PropInfo {
     let (level, rule) = match prop {
         "C01" => ("exploration", "random concurrent histories (proptest) over 1-2 topics x 1-4 subscriptions; non-trivial = a publish returned while >=2 subscriptions were attached to its topic AND (a redelivery happened OR two publishes overlapped OR a create/delete overlapped a publish); distinct by hash of the operation list"),
-        "C02" => ("exploration", "exhaustive enumeration of all sequences over a 12-symbol alphabet up to a length bound (1 topic, 2 subscriptions, stats compared with the model after every step) plus random concurrent histories; non-trivial = an acknowledgement took effect while another delivery was outstanding, or a stale/unknown ack id was sent while a delivery was outstanding; distinct by hash of the operation list"),
+        "C02" => ("exploration", "exhaustive enumeration of all sequences up to a length bound over three alphabets (12 unary symbols; 8 StreamingPull control-message symbols; 6 symbols of control messages that acknowledge and modify at once) on 1 topic with 2 subscriptions, stats compared with the model after every step, plus random concurrent histories; non-trivial = an acknowledgement took effect while another delivery was outstanding, or a stale/unknown ack id was sent while a delivery was outstanding; distinct by hash of the operation list"),
         "C03" => ("exploration", "random histories with 2-6 concurrent consumers (unary pulls, streams, bursts) per subscription, plus one batch of push subscriptions against a scripted HTTP endpoint (slow and silent answers, rounds of 60 messages); non-trivial = >=2 consumer calls in flight at once on a subscription holding >=2 messages and >=1 redelivery; distinct by hash of the operation list"),
         "C04" => ("exploration", "structured histories: ack_deadline_seconds from a boundary set, generated rounding phase, 1-6 messages handed out at 1-3 instants, probes positioned exactly around each deadline (GoTo -2ms..-1us and +101..200ms) plus blocked consumers; exhaustive sweep of AckDeadline::new over all 100000 microsecond phases; non-trivial = >=1 probe inside the last 2 ms before a deadline and >=1 redelivery after expiry; distinct by (phase, operation list)"),
         "C05" => ("exploration", "structured histories mixing ModifyAckDeadline (unary and streaming, boundary N values, mixed id classes) with exact probes around the old and new deadline; non-trivial = a request mixing >=2 ack-id classes, or a shortening / repeated modification of one delivery; distinct by hash of the operation list"),
@@ -43,7 +43,7 @@ pub fn info(prop: &str) -> PropInfo {
         "C14" => ("fault_enumeration", "one push subscription per case, each with its own URL path on a scripted loopback HTTP endpoint and its own per-attempt fault script over {200,201,202,204, 102-then-silence, 100-then-silence, 301, 400, 404, 429, 500, 503, reset, close-without-answer, stall, 200-after-300ms}: every single behaviour, failure-then-X pairs (all pairs across the thorough batches), random triples, 1-3 messages with varied payloads, pull-only control subscriptions and subscriptions deleted mid-way; oracle from the endpoint's own log; non-trivial = a script with a failure followed by an accepting answer, or a transport-level fault; distinct by hash of the case"),
         "C16" => ("fault_enumeration", "every request kind (13 unary RPCs, push-subscription create, stream open, stream control message) x drop after k = 0..12 polls of its future x {no, topic, subscription, both} mailboxes saturated by 17-40 state-neutral requests x {one scheduler tick, a full settle} between polls, plus proptest-generated prefixes; oracle = the observable state (all listings, resources, stats, push registry, an attach probe, and what is obtainable after the ack deadline) equals that of a reference run with the request completed or that of one with the request never sent; non-trivial = the drop happened after at least one poll, i.e. inside the handler; distinct by (kind, k, saturation, pacing)"),
         "C17" => ("exploration", "one to four requests per case against a prepared instance (2 topics, 3 subscriptions, outstanding deliveries, an open stream) with fields drawn from structured pools: near-miss / empty / huge / non-ASCII / slash-heavy names, malformed ack ids, boundary integers, page tokens, push endpoints, inconsistent StreamingPull control messages; the observable state is rendered before and after every request; non-trivial = a request that must be rejected although it also carries valid, effect-bearing elements; distinct by hash of the operation list"),
-        "C18" => ("exploration", "exhaustive enumeration of projects/ + up to 5 (quick) / 7 (thorough) tokens from {a,b,/,e-acute,topics,subscriptions,projects,-,1} and of all strings of up to 5 raw symbols, plus proptest pairs of grammar-valid names, near-miss mutations and arbitrary UTF-8; oracle = independent reference grammar, echo round trip, injectivity; non-trivial = string starts with projects/ and contains >=2 further slashes; distinct strings counted"),
+        "C18" => ("exploration", "exhaustive enumeration of projects/ + up to 5 (quick) / 7 (thorough) tokens from {a,b,/,e-acute,topics,subscriptions,projects,-,_deleted_topic_} and of all strings of up to 5 raw symbols, plus proptest pairs of grammar-valid names, near-miss mutations and arbitrary UTF-8; oracle = independent reference grammar, echo round trip, injectivity; non-trivial = string starts with projects/ and contains >=2 further slashes; distinct strings counted"),
         "C19" => ("exploration", "(a) deterministic explorer: every sequence of up to 6 (quick) / 8 (thorough) operations from {NewWaiter, Poll(0..2), Inc, Dec} for three limit pairs, plus proptest sequences of up to 24 operations with up to 6 waiters, polled by hand with flag wakers; (b) barrier-started real-thread rounds (1-3 waiters, a freeing dec after a generated spin of 0-400 iterations, optional noise thread); non-trivial = an inc/dec executed while >=2 waiters were parked (explorer) or a round with >=2 waiters or a noise thread (stress); distinct by hash of the case"),
         _ => ("exploration", ""),
     };
@@ -407,6 +407,45 @@ pub fn with_stalls(inner: BoxedStrategy<Case>, candidates: &'static [u8]) -> Box
 /// the cross-actor sends of create and delete
 const CONTROL_POINTS: &[u8] = &[0, 2, 3, 4, 10, 4, 10, 1];
 
+/// Races on one topic name and two subscription names: creates, deletes (several at once,
+/// some held at the cross-actor send points), re-creation while a stale request is still
+/// held, and reads afterwards. Shared by C10, C11 and C12.
+pub fn control_race_strategy() -> BoxedStrategy<Case> {
+    let t0 = T { p: 0, i: 0 };
+    let sx = prop_oneof![Just(S { p: 0, i: 0 }), Just(S { p: 0, i: 1 })];
+    let step = prop_oneof![
+        3 => Just(Op::DeleteTopic { t: t0, a: true }),
+        2 => Just(Op::DeleteTopic { t: t0, a: false }),
+        3 => Just(Op::CreateTopic { t: t0, a: false }),
+        1 => Just(Op::CreateTopic { t: t0, a: true }),
+        3 => (sx.clone(), any::<bool>()).prop_map(move |(s, a)| Op::CreateSub { s, t: t0, dl: 10, push: 0, a }),
+        2 => (sx.clone(), any::<bool>()).prop_map(|(s, a)| Op::DeleteSub { s, a }),
+        2 => Just(Op::Publish { t: t0, n: 1, payload: Payload::plain(), a: false }),
+        1 => Just(Op::Publish { t: t0, n: 1, payload: Payload::plain(), a: true }),
+        2 => Just(Op::ReleaseStalls),
+        2 => Just(Op::Settle),
+        2 => Just(Op::CheckLists),
+        1 => sx.clone().prop_map(|s| Op::GetSub { s, a: false }),
+        1 => Just(Op::GetTopic { t: t0, a: false }),
+        1 => sx.clone().prop_map(|s| Op::PullAll { s }),
+        1 => sx.clone().prop_map(|s| Op::StreamOpen { s, max_out: 10 }),
+        1 => sx.clone().prop_map(|s| Op::Pull { s, max: 5, ri: false, a: true }),
+        1 => (1u8..5).prop_map(|n| Op::Tick { n }),
+    ];
+    let stall_points: &'static [u8] = &[4, 4, 10, 10, 3, 2, 0, 1];
+    (any::<u64>(), any::<u64>(), vec(step, 4..14), vec((0..stall_points.len(), 0u8..3), 1..=2), arb_points(2))
+        .prop_map(move |(sched_seed, fanout_seed, body, stalls, mut points)| {
+            let mut ops = vec![Op::CreateTopic { t: t0, a: false }, Op::CreateSub { s: S { p: 0, i: 0 }, t: t0, dl: 10, push: 0, a: false }];
+            ops.extend(body);
+            ops.extend([Op::ReleaseStalls, Op::Settle, Op::CheckLists]);
+            for (i, nth) in stalls {
+                points.insert(0, PointSpec { point: stall_points[i], nth, yields: 255 });
+            }
+            Case { sched_seed, phase_us: 0, fanout_seed, points, ops }
+        })
+        .boxed()
+}
+
 pub fn c10_strategy() -> BoxedStrategy<Case> {
     let w = W {
         np: 2,
@@ -695,9 +734,49 @@ fn sim_cfg(qp_each_op: bool) -> RunCfg {
     RunCfg { horizon: true, drain: true, qp_each_op }
 }
 
+/// Replay tier: every input saved under regressions/<property>/ (shrunk failures of defects
+/// that were repaired, inputs that once raised a false alarm) is run again first. Spread over
+/// the workers; inputs of the real-time engines only in the thorough tier.
+fn replay_regressions(ctx: &WorkerCtx, out: &mut WorkerOut) {
+    let dir = verif_root().join("regressions").join(&ctx.prop);
+    let mut files: Vec<std::path::PathBuf> = match std::fs::read_dir(&dir) {
+        Ok(rd) => rd.filter_map(|e| e.ok().map(|e| e.path())).filter(|p| p.extension().map(|x| x == "json").unwrap_or(false)).collect(),
+        Err(_) => return,
+    };
+    files.sort();
+    for (n, f) in files.iter().enumerate() {
+        if n as u64 % ctx.nworkers != ctx.widx {
+            continue;
+        }
+        let v: serde_json::Value = match std::fs::read(f).ok().and_then(|b| serde_json::from_slice(&b).ok()) {
+            Some(v) => v,
+            None => continue,
+        };
+        let input = v.get("input").cloned().unwrap_or(serde_json::Value::Null);
+        let engine = input.get("engine").and_then(|e| e.as_str()).unwrap_or("sim").to_string();
+        if ctx.tier == Tier::Quick && (engine == "push" || engine.starts_with("flow")) {
+            continue;
+        }
+        let _ = std::fs::write(&ctx.inflight, serde_json::to_vec(&input).unwrap_or_default());
+        out.evaluations += 1;
+        out.class("regression_input_replayed");
+        if let Ok(vs) = replay_input(&ctx.prop, &input) {
+            for x in vs {
+                if x.props.iter().any(|p| *p == ctx.prop) && match_finding(&ctx.findings, &ctx.prop, &x.rule, &x.detail).is_none() && out.failure.is_none() {
+                    out.failure = Some(Failure { rule: x.rule.clone(), detail: format!("(saved input {}) {}", f.file_name().and_then(|n| n.to_str()).unwrap_or(""), x.detail), engine: engine.clone(), input: input.clone(), trace: serde_json::Value::Null });
+                }
+            }
+        }
+    }
+}
+
 pub fn run_worker(ctx: &WorkerCtx) -> WorkerOut {
     let mut out = WorkerOut::default();
     let t = ctx.tier;
+    replay_regressions(ctx, &mut out);
+    if out.failure.is_some() {
+        return out;
+    }
     match ctx.prop.as_str() {
         "C01" => {
             let nt = |_: &Case, r: &Report| {
@@ -753,14 +832,17 @@ pub fn run_worker(ctx: &WorkerCtx) -> WorkerOut {
         "C10" => {
             let nt = |_: &Case, r: &Report| r.feat.overlapping_control_on_name;
             run_sim_stage(ctx, SimStage { name: "namespaces", strategy: c10_strategy(), cfg: sim_cfg(false), cases: ctx.share(scale(t, 8_000, 240_000)), nontrivial: &nt, classes: &std_classes, extra: None }, &mut out);
+            run_sim_stage(ctx, SimStage { name: "name_races", strategy: control_race_strategy(), cfg: sim_cfg(false), cases: ctx.share(scale(t, 4_000, 120_000)), nontrivial: &nt, classes: &std_classes, extra: None }, &mut out);
         }
         "C11" => {
             let nt = |_: &Case, r: &Report| r.feat.delete_then_recreate_with_survivor;
             run_sim_stage(ctx, SimStage { name: "deletion", strategy: c11_strategy(), cfg: sim_cfg(false), cases: ctx.share(scale(t, 8_000, 240_000)), nontrivial: &nt, classes: &std_classes, extra: None }, &mut out);
+            run_sim_stage(ctx, SimStage { name: "name_races", strategy: control_race_strategy(), cfg: sim_cfg(false), cases: ctx.share(scale(t, 4_000, 120_000)), nontrivial: &nt, classes: &std_classes, extra: None }, &mut out);
         }
         "C12" => {
             let nt = |_: &Case, r: &Report| r.feat.delete_with_open_stream_or_blocked_pull;
             run_sim_stage(ctx, SimStage { name: "release", strategy: c12_strategy(), cfg: sim_cfg(false), cases: ctx.share(scale(t, 12_000, 400_000)), nontrivial: &nt, classes: &std_classes, extra: None }, &mut out);
+            run_sim_stage(ctx, SimStage { name: "name_races", strategy: control_race_strategy(), cfg: sim_cfg(false), cases: ctx.share(scale(t, 4_000, 120_000)), nontrivial: &nt, classes: &std_classes, extra: None }, &mut out);
         }
         "C13" => {
             crate::pure::paging_pure(ctx, &mut out);
